@@ -1,1 +1,2 @@
 import Ops.Core
+import Ops.Codec
